@@ -460,11 +460,38 @@ def c15(ctx):
     )
 
 
-PROPS = {"C06": c06, "C15": c15, "C18": c18, "C12": c12, "C07": c07, "C09": c09, "C09": c09, "C10": c10, "C11": c11, "C13": c13, "C14": c14, "C05": c05, "C20": c20, "C16": c16, "C17": c17, "C04": c04, "C03": c03}
+def c01(ctx):
+    prog = ctx.prog("dev")
+    RT.rule_c01_interpolation(ctx, prog)
+    RT.rule_c18_quantiles(ctx, prog)
+    RS.rule_r12_callsites(ctx, prog)
+    roots = [b for b in all_roots(prog) if "quantile::" in b.key]
+    na = RL.rule_r8(ctx, prog, roots)
+    ctx.floor("R8", na, 8, "axis arguments in quantile routines")
+    pairs = RL.rule_r9(ctx, prog, roots)
+    ctx.floor("R9", len(pairs), 2, "zips in quantile routines")
+    only = {("QuantileExt", "quantiles_axis_mut"), ("QuantileExt", "quantile_axis_mut"), ("Quantile1dExt", "quantile_mut"), ("Quantile1dExt", "quantiles_mut")}
+    RG.rule_r6(ctx, prog, only=only)
+    return dict(
+        level="other",
+        explanation="The INTERPOLATION LAYER of C01 only, relative to C02 (that bulk selection returns the true order statistics at the "
+                    "requested positions is NOT decided): (R19) the index arithmetic is (N−1)q with floor / ceil / fract, read off the MIR "
+                    "with helpers inlined; the strategy table – Lower/Higher select, Nearest takes lower iff fract < 0.5 with higher its "
+                    "complement, Midpoint = (lower+higher)/2 and Linear = lower + fract·(higher−lower) by CAS on the extracted terms, "
+                    "needs_lower/needs_higher per strategy; (R13) the bulk routine stores into the j-th result I::interpolate of the "
+                    "values looked up at lower_index/higher_index of the j-th q and the axis length, the result has the input's raw_dim "
+                    "with the axis entry replaced by qs.len(), the single form is slice 0 along the caller's axis, 1-D wrappers use "
+                    "Axis(0); (R12) the index vector handed to the unchecked selection is sorted+deduped; (R8/R9) axis and q↔result "
+                    "pairing; (R6) error rows. Representability, integer rounding ('within one unit') and pivot independence are not decided.",
+    )
+
+
+PROPS = {"C01": c01, "C06": c06, "C15": c15, "C18": c18, "C12": c12, "C07": c07, "C09": c09, "C09": c09, "C10": c10, "C11": c11, "C13": c13, "C14": c14, "C05": c05, "C20": c20, "C16": c16, "C17": c17, "C04": c04, "C03": c03}
 
 
 # rules with a planted must-fire positive in /verif/fixtures, per property (run on every check)
 FIXTURE_RULES = {
+    "C01": ["R19", "R8", "R9", "R6"],
     "C03": ["R4", "R1"], "C04": ["R3", "R14", "R1", "R21"], "C05": ["R6", "R1"], "C06": ["R9", "R1", "R8", "R19"], "C07": ["R9", "R8", "R6", "R19"],
     "C09": ["R9", "R1", "R19", "R6"], "C10": ["R10", "R9", "R1", "R6"], "C11": ["R8", "R9"], "C12": ["R6", "R8"], "C13": ["R9"],
     "C14": ["R8", "R6"], "C15": ["R18", "R5", "R22"], "C16": ["R5", "R18"], "C17": ["R6"], "C18": ["R9", "R8", "R6", "R19"], "C20": ["R1", "R8", "R9"],
